@@ -9,6 +9,9 @@ import PetgraphModel.Proofs.C16W2Sf
 import PetgraphModel.Proofs.C16W2Acc
 import PetgraphModel.Proofs.C16W2Driver
 import PetgraphModel.Proofs.C16W2ApMain
+import PetgraphModel.Proofs.C16W4Checks
+import PetgraphModel.Proofs.C16W4Judge
+import PetgraphModel.Proofs.C16W4Model
 /-
 C16 — dominators and articulation points match their path-based definitions.
 
@@ -16,8 +19,9 @@ Specification: `Spec/C16.lean` (`Walk`, `Dominates`, `IsIdom`, `numComponents`, 
 
 Part A (verified checkers): the per-run judges of `Driver/C16.lean` / `Oracle/C16.lean` accept an
 implementation answer only if it satisfies the clause of the property it judges — for ALL graphs
-and ALL answers; they are also complete (no false alarm) whenever the reachability oracle does not
-run out of fuel.
+and ALL answers; they are also complete (no false alarm), for every accessor, and conclusive: the
+reachability oracle always returns with the fuel it is given (`C16_oracle_returns`), so the two judges
+the driver runs accept an answer **iff** it is correct (`C16_judge_sf_iff`, `C16_judge_ap_iff`).
 Part B: facts about the specification (dominance is decided by node removal, is antisymmetric; the
 immediate dominator is unique and nothing lies between it and the node; the counting definition of
 a cut vertex is the textbook "separates two other nodes").
@@ -30,6 +34,11 @@ The two `…_statement` definitions kept from the first wave are false as writte
 hypothesis `SuccBounded` — the view may not repeat a neighbour more often than the abstract graph has
 edges —, `…_statement_false_witness`); the theorems prove the statements repaired by exactly that
 hypothesis.
+Part E (wave 4): run-time checks of the hypotheses — the Boolean checks the driver evaluates on every
+`graph`, `sf` and `ap` line imply every hypothesis of the Part D theorems (`C16_*_check`), so the
+full-correctness theorems hold for every case the driver judges (`C16_simple_fast_checked`,
+`C16_articulation_checked`), and on such a case the judge accepts the model's own answer
+(`C16_model_sf_accepted`, `C16_model_ap_accepted`).
 -/
 namespace PetgraphModel.C16T
 open PetgraphModel MGraph Oracle C16S C16O C16M C16P
@@ -92,41 +101,8 @@ theorem C16_judge_sf_sound (g : MGraph) (r ir : Nat) (recs : List C16.Rec)
         | some a => IsIdom g r a rc.b
         | none => rc.b = r ∨ ¬ Reach g r rc.b) ∧
       (rc.idb.Nodup ∧ ∀ m, m ∈ rc.idb ↔ IsIdom g r rc.b m) := by
-  unfold C16.judgeSf at h
-  split at h
-  · cases h
-  · rename_i T hT
-    have hok := domTable_ok hT
-    split at h
-    · cases h
-    · rename_i hroot
-      split at h
-      · cases h
-      · refine ⟨by simpa using hroot, fun rc hrc => ?_⟩
-        have hrc' := List.findSome?_eq_none_iff.mp h rc hrc
-        split at hrc'
-        · cases hrc'
-        · rename_i h1
-          split at hrc'
-          · cases hrc'
-          · rename_i h2
-            split at hrc'
-            · cases hrc'
-            · rename_i h3
-              split at hrc'
-              · cases hrc'
-              · rename_i h4
-                simp only [Bool.not_eq_true, Bool.not_eq_false'] at h1 h2 h3 h4
-                refine ⟨?_, ?_, ?_, checkIdb_sound hok rc.b rc.idb h4⟩
-                · cases hd : rc.doms with
-                  | none => rw [hd] at h1; exact checkDominators_none hok rc.b h1
-                  | some o => rw [hd] at h1; exact checkDominators_some hok rc.b o h1
-                · cases hd : rc.strict with
-                  | none => rw [hd] at h2; exact checkStrict_none hok rc.b h2
-                  | some o => rw [hd] at h2; exact checkStrict_some hok rc.b o h2
-                · cases hd : rc.idom with
-                  | none => rw [hd] at h3; exact checkIdom_none hok rc.b h3
-                  | some a => rw [hd] at h3; exact checkIdom_some hok rc.b a h3
+  obtain ⟨h1, _, h3⟩ := (W4.judgeSf_none_iff g r ir recs).mp h
+  exact ⟨h1, h3⟩
 
 /-- the component counter computes the number of connected components -/
 theorem C16_component_count (g : MGraph) (c : Nat) (h : compCount g = some c) : c = numComponents g :=
@@ -159,6 +135,64 @@ theorem C16_judge_idom_complete (g : MGraph) (r : Nat) (T : DomTable) (h : domTa
 theorem C16_judge_articulation_complete (g : MGraph) (o l : List Nat) (hl : cutSet g = some l)
     (hn : o.Nodup) (ho : ∀ x, x ∈ o ↔ CutVertex g x) : checkAP g o = true :=
   checkAP_complete g o l hl hn ho
+
+/-- no false alarm for `strict_dominators(b) = Some(o)` -/
+theorem C16_judge_strict_complete (g : MGraph) (r : Nat) (T : DomTable) (h : domTable g r = some T)
+    (b : Nat) (o : List Nat) (hb : Reach g r b) (hn : o.Nodup) (ho : ∀ a, a ∈ o ↔ StrictlyDominates g r a b) :
+    T.checkStrict b (some o) = true :=
+  W4.checkStrict_complete (domTable_ok h) b o hb hn ho
+
+/-- no false alarm for the `None` answers: `dominators(b)` / `strict_dominators(b)` of an unreachable
+node, `immediate_dominator(b)` of the root or an unreachable node -/
+theorem C16_judge_none_complete (g : MGraph) (r : Nat) (T : DomTable) (h : domTable g r = some T) (b : Nat) :
+    (¬ Reach g r b → T.checkDominators b none = true ∧ T.checkStrict b none = true) ∧
+    (b = r ∨ ¬ Reach g r b → T.checkIdom b none = true) :=
+  ⟨fun hb => ⟨W4.checkDominators_none_complete (domTable_ok h) b hb,
+      W4.checkStrict_none_complete (domTable_ok h) b hb⟩,
+   fun hb => W4.checkIdom_none_complete (domTable_ok h) b hb⟩
+
+/-- no false alarm for `immediately_dominated_by(a) = o` -/
+theorem C16_judge_idb_complete (g : MGraph) (r : Nat) (T : DomTable) (h : domTable g r = some T)
+    (a : Nat) (o : List Nat) (hn : o.Nodup) (ho : ∀ m, m ∈ o ↔ IsIdom g r a m) : T.checkIdb a o = true :=
+  W4.checkIdb_complete (domTable_ok h) a o hn ho
+
+/-- **the oracles always return**: with the fuel they are given (`Oracle.fuelFor`, the fuel the driver
+uses) the reachability oracle, and hence the dominator table, the component counter and the cut-vertex
+enumerator, never answer `none` — for every graph, well-formed or not.  The hypotheses
+`domTable g r = some T`, `compCount g = some c`, `cutSet g = some l` of the theorems above are always
+satisfiable. -/
+theorem C16_oracle_returns (g : MGraph) (r : Nat) :
+    (∃ R, reachFrom g r = some R) ∧ (∃ T, domTable g r = some T) ∧ (∃ c, compCount g = some c) ∧
+    (∃ l, cutSet g = some l) :=
+  ⟨reachFrom_total g r, W4.domTable_total g r, W4.compCount_total g, W4.cutSet_total g⟩
+
+/-- the `ORACLE-FUEL` branch of the `simple_fast` judge (driver verdict `JUDGE-ERROR`) is unreachable:
+the judge always evaluates the checks on the dominator table -/
+theorem C16_judge_sf_conclusive (g : MGraph) (r ir : Nat) (recs : List C16.Rec) :
+    ∃ T, domTable g r = some T ∧ C16.judgeSf g r ir recs = C16.judgeSfT T g r ir recs :=
+  W4.judgeSf_conclusive g r ir recs
+
+/-- **the judge the driver runs on a `simple_fast` answer accepts it iff it is correct** (no
+hypothesis on the oracle): `root()` is the root given, the records list every node once, and every
+record — `immediate_dominator`, `dominators`, `strict_dominators`, `immediately_dominated_by` of
+one node, reachable or not, the root included — satisfies its clause of the property
+(`W4.RecCorrect`, the conjunction spelt out in `C16_judge_sf_sound`). -/
+theorem C16_judge_sf_iff (g : MGraph) (r ir : Nat) (recs : List C16.Rec) :
+    C16.judgeSf g r ir recs = none ↔
+      ir = r ∧ sameSet (recs.map (·.b)) g.nodes = true ∧ ∀ rc ∈ recs, W4.RecCorrect g r rc :=
+  W4.judgeSf_none_iff g r ir recs
+
+/-- the `ORACLE-FUEL` branch of the `articulation_points` judge is unreachable -/
+theorem C16_judge_ap_conclusive (g : MGraph) (o : List Nat) :
+    ∃ l, cutSet g = some l ∧
+      C16.judgeAp g o = if checkAP g o = true then none else some (C16.apWhy o l) :=
+  W4.judgeAp_conclusive g o
+
+/-- **the judge the driver runs on an `articulation_points` answer accepts it iff it lists, without
+repetition, exactly the cut vertices** (no hypothesis on the oracle) -/
+theorem C16_judge_ap_iff (g : MGraph) (o : List Nat) :
+    C16.judgeAp g o = none ↔ o.Nodup ∧ ∀ x, x ∈ o ↔ CutVertex g x :=
+  W4.judgeAp_none_iff g o
 
 /-! ## Part B — the specification -/
 
@@ -446,6 +480,118 @@ theorem C16_articulation_no_panic (v : View) (hi : IndexOk v) :
     (∃ l, articulationPoints v = .ok l) ∨ articulationPoints v = .error "FUEL" :=
   articulationPoints_no_fault v hi
 
+/-- `immediately_dominated_by` never repeats a node (well-formed map: unique keys) -/
+theorem C16_accessors_idb_nodup (d : Doms) (hd : DomsWF d) (n : Nat) : (d.immediatelyDominatedBy n).Nodup :=
+  W4.idb_nodup d hd n
+
+/-! ## Part E — run-time checks of the hypotheses
+
+`Driver/C16.lean` evaluates `graphScopeB` on every `graph` line, `sfScopeB` on every `sf` line and
+`apScopeB` on every `ap` line, and judges a call only if the check holds (otherwise it answers
+`SPECFAIL side condition … does not hold` / `SPECFAIL generator left the proved range`).  Every
+hypothesis of `C16_simple_fast`, `C16_simple_fast_accessors` and `C16_articulation` follows. -/
+
+/-- `wfB` ⇒ `WellFormed` (and conversely: the check rejects nothing that is well-formed) -/
+theorem C16_wellformed_check (g : MGraph) : C16.wfB g = true ↔ g.WellFormed :=
+  ⟨W4.wfB_sound g, W4.wfB_complete g⟩
+
+/-- the three checks of the `graph` line ⇒ `ViewOk` (for every `a`, node or not: `b ∈ v.succ a ↔ Adj a b`) -/
+theorem C16_viewok_check (v : View) (h1 : C16.wfB v.g = true) (h2 : C16.viewOkB v = true)
+    (h3 : C16.rowsOkB v = true) : ViewOk v :=
+  W4.viewOk_of_checks v h1 h2 h3
+
+/-- `viewOkB` ⇒ the neighbour-list length bound `hb` (this is `C16_driver_views_bounded`) -/
+theorem C16_bounded_check (v : View) (h : C16.viewOkB v = true) :
+    ∀ a, a ∈ v.g.nodes → (v.succ a).length ≤ (v.g.succ a).length :=
+  C16_driver_views_bounded v h
+
+theorem C16_root_check (v : View) (r : Nat) : C16.rootOkB v r = true ↔ r ∈ v.g.nodes := by
+  simp [C16.rootOkB]
+
+/-- `indexOkB` ⇔ `IndexOk` -/
+theorem C16_index_check (v : View) : C16.indexOkB v = true ↔ IndexOk v :=
+  ⟨W4.indexOkB_sound v, W4.indexOkB_complete v⟩
+
+/-- the check of an `sf r` line gives every hypothesis of `C16_simple_fast` -/
+theorem C16_sf_scope_check (v : View) (r : Nat) (h : C16.sfScopeB v r = true) :
+    ViewOk v ∧ (∀ a, a ∈ v.g.nodes → (v.succ a).length ≤ (v.g.succ a).length) ∧
+    r ∈ v.g.nodes ∧ v.g.WellFormed :=
+  let ⟨hg, hr⟩ := W4.sfScopeB_sound v r h
+  ⟨hg.view, hg.bounded, hr, hg.wf⟩
+
+/-- the check of an `ap` line gives every hypothesis of `C16_articulation` -/
+theorem C16_ap_scope_check (v : View) (h : C16.apScopeB v = true) :
+    ViewOk v ∧ (∀ a, a ∈ v.g.nodes → (v.succ a).length ≤ (v.g.succ a).length) ∧
+    v.g.directed = false ∧ v.g.WellFormed ∧ IndexOk v :=
+  let ⟨hg, hu, hi⟩ := W4.apScopeB_sound v h
+  ⟨hg.view, hg.bounded, hu, hg.wf, hi⟩
+
+/-- the driver judges an `sf` / `ap` line only inside the scope: when the check fails its answer is the
+scope-failure `SPECFAIL`, whatever the implementation answered -/
+theorem C16_driver_guards (v : View) (r : Nat) (impl : String) :
+    (C16.sfScopeB v r = false → C16.stepSf v r impl = C16.sfScopeFail v r) ∧
+    (C16.apScopeB v = false → C16.stepAp v impl = C16.apScopeFail v) := by
+  constructor
+  · intro h; simp [C16.stepSf, h]
+  · intro h; simp [C16.stepAp, h]
+
+/-- **full correctness of the mirrored `simple_fast` on every case the driver judges**: the only
+hypothesis is the Boolean the driver evaluated.  The model terminates within its fuel without panic;
+`root()` is the root; an entry exists exactly for the reachable nodes; `dominators`, `strict_dominators`
+list without repetition exactly the (strict) dominators; `immediate_dominator` is the closest strict
+dominator (`None` exactly for the root and the unreachable nodes); `immediately_dominated_by` lists
+without repetition exactly the nodes whose immediate dominator it is. -/
+theorem C16_simple_fast_checked (v : View) (root : Nat) (h : C16.sfScopeB v root = true) :
+    ∃ d, simpleFast v root = .ok d ∧ d.root = root ∧
+      (∀ b, d.dominators b = none ↔ ¬ Reach v.g root b) ∧
+      (∀ b l, d.dominators b = some l → l.Nodup ∧ ∀ a, a ∈ l ↔ Dominates v.g root a b) ∧
+      (∀ b a, d.immediateDominator b = some a ↔ IsIdom v.g root a b) ∧
+      (∀ b, d.immediateDominator b = none ↔ b = root ∨ ¬ Reach v.g root b) ∧
+      (∀ b, d.strictDominators b = none ↔ ¬ Reach v.g root b) ∧
+      (∀ b l, d.strictDominators b = some l → l.Nodup ∧ ∀ a, a ∈ l ↔ StrictlyDominates v.g root a b) ∧
+      (∀ n, (d.immediatelyDominatedBy n).Nodup ∧ ∀ m, m ∈ d.immediatelyDominatedBy n ↔ IsIdom v.g root n m) := by
+  obtain ⟨hv, hb, hroot, hwf⟩ := C16_sf_scope_check v root h
+  obtain ⟨d, hd, h1, h2, h3⟩ := C16_simple_fast v root hv hb hroot hwf
+  obtain ⟨d', hd', a1, a2, a3, a4, a5⟩ := C16_simple_fast_accessors v root hv hb hroot hwf
+  have hdd : d' = d := by rw [hd] at hd'; cases hd'; rfl
+  subst hdd
+  have hwfd := (simpleFast_sound v root d' hv (postOrderSpec_of_viewOk v hv root) hd).2.2.2
+  exact ⟨d', hd, h1, h2, h3, a1, a2, a3, a4, fun n => ⟨W4.idb_nodup d' hwfd n, a5 n⟩⟩
+
+/-- on every case the driver judges the accessor model's own iteration bound (`chainFuel`, a guard
+against a cyclic map) is never reached: the hypothesis `hlen` of `C16_accessors_strict_closure` holds,
+so `strict_dominators(b)` is the `immediate_dominator` chain of `b` -/
+theorem C16_simple_fast_chain_fuel (v : View) (root : Nat) (h : C16.sfScopeB v root = true) :
+    ∃ d, simpleFast v root = .ok d ∧ ∀ b l, d.strictDominators b = some l →
+      l.length < d.chainFuel ∧ IdomChain d b l := by
+  obtain ⟨d, hd, _, h2, _, _, _, h6, h7, _⟩ := C16_simple_fast_checked v root h
+  refine ⟨d, hd, fun b l hl => ?_⟩
+  have hlen := W4.strict_length_lt_chainFuel v.g root d h2 h6 h7 b l hl
+  exact ⟨hlen, (C16_accessors_strict_closure d b l hl hlen).1⟩
+
+/-- **full correctness of the mirrored `articulation_points` on every case the driver judges** -/
+theorem C16_articulation_checked (v : View) (h : C16.apScopeB v = true) :
+    ∃ l, articulationPoints v = .ok l ∧ l.Nodup ∧ ∀ x, x ∈ l ↔ CutVertex v.g x := by
+  obtain ⟨hv, hb, hu, hwf, hi⟩ := C16_ap_scope_check v h
+  exact C16_articulation v hv hb hu hwf hi
+
+/-- on every case the driver judges, the judge accepts the model's own answer (the records the driver
+prints for the model, `C16.recsOf (sortNats nodes) d`): an implementation answer that equals the model's
+(verdict `ok`) is never a `SPECFAIL`, and a `SPECFAIL` always comes with a difference to the model -/
+theorem C16_model_sf_accepted (v : View) (root : Nat) (h : C16.sfScopeB v root = true) :
+    ∃ d, simpleFast v root = .ok d ∧
+      C16.judgeSf v.g root d.root (C16.recsOf (sortNats v.g.nodes) d) = none := by
+  obtain ⟨d, hd, h1, h2, h3, h4, h5, h6, h7, h8⟩ := C16_simple_fast_checked v root h
+  refine ⟨d, hd, (C16_judge_sf_iff _ _ _ _).mpr ⟨h1, W4.recsOf_nodes _ d, ?_⟩⟩
+  exact W4.recsOf_correct v.g root d _ h2 h3 h4 h5 h6 h7 h8
+
+theorem C16_model_ap_accepted (v : View) (h : C16.apScopeB v = true) :
+    ∃ l, articulationPoints v = .ok l ∧ C16.judgeAp v.g (sortNats l) = none := by
+  obtain ⟨l, hl, hn, hx⟩ := C16_articulation_checked v h
+  refine ⟨l, hl, (C16_judge_ap_iff _ _).mpr ⟨?_, fun x => ?_⟩⟩
+  · exact (W4.sortNats_perm l).nodup_iff.mpr hn
+  · exact ((W4.sortNats_perm l).mem_iff).trans (hx x)
+
 /-! ## the hypotheses are satisfiable: concrete non-trivial instances -/
 
 /-- the irreducible flow graph of Cooper–Harvey–Kennedy, figure 2: 5→4, 5→3, 4→1, 3→2, 1⇄2 -/
@@ -512,5 +658,27 @@ example : IndexOk exUV := by
 example : checkAP exU [2, 1] = true := rfl
 example : checkAP exU [2] = false := rfl
 example : articulationPoints exUV = .ok [2, 1] := rfl
+
+/-- the run-time checks hold on the two example views (the `_checked` theorems are not vacuous) … -/
+def exV' : View := { exV with inn := derivedIn exG }
+def exUV' : View := { exUV with inn := derivedIn exU }
+example : C16.sfScopeB exV' 5 = true := by decide
+example : C16.apScopeB exUV' = true := by decide
+/-- … and each of them can fail: a root that is not a node, a repeated node id, an edge to a non-node,
+a neighbour list that is not a permutation, a row for a non-node, a `to_index` that is not injective
+or not below `node_bound()` -/
+example : C16.sfScopeB exV' 7 = false := by decide
+example : C16.wfB ⟨true, [0, 1, 1], []⟩ = false := by decide
+example : C16.wfB ⟨true, [0, 1], [⟨0, 0, 2, 1⟩]⟩ = false := by decide
+example : C16.viewOkB { exV' with out := [(5, [(4, 0)])] } = false := by decide
+example : C16.rowsOkB { exV' with out := (9, [(1, 0)]) :: exV.out } = false := by decide
+example : C16.indexOkB { exUV' with ix := [(0, 0), (1, 1), (2, 2), (3, 3), (4, 3)] } = false := by decide
+example : C16.indexOkB { exUV' with nb := 4 } = false := by decide
+/-- the judges accept the correct answers on the examples and reject a wrong `strict_dominators(root)` -/
+example : C16.judgeSf exG 5 5 (C16.recsOf [1, 2, 3, 4, 5] ⟨5, [(1, 5), (2, 5), (3, 5), (4, 5), (5, 5)]⟩) = none := by
+  decide
+example : (C16.judgeSf exG 5 5 ((C16.recsOf [1, 2, 3, 4, 5] ⟨5, [(1, 5), (2, 5), (3, 5), (4, 5), (5, 5)]⟩).map
+    fun rc => if rc.b = 5 then { rc with strict := some [5] } else rc)).isSome = true := by decide
+example : C16.judgeAp exU [1, 2] = none := by decide
 
 end PetgraphModel.C16T
